@@ -140,3 +140,72 @@ package gtfs
 //@   loop 1 invariant csvOK(csv)
 //@   loop 1 decreases remaining(csv.csvReader)
 //@   loop 2 invariant 0 <= 0
+
+//@ func parseAgencies
+//@   props C01 C05 C08 C09
+//@   requires csvOK(csv)
+//@   loop 1 invariant csvOK(csv)
+//@   loop 1 decreases remaining(csv.csvReader)
+
+//@ func checkForMissingColumns
+//@   props C05 C09
+//@   requires csvOK(csv)
+//@   ensures len(result) == 0 <==> len(csv.missingRequiredColumns) == 0
+//@   ensures csvOK(csv)
+
+//@ func parseStops
+//@   props C01 C03 C05 C08 C09 C10
+//@   requires csvOK(csv)
+//@   loop 1 invariant csvOK(csv)
+//@   loop 1 invariant len(parentStopIds) == len(stops) && stopIdToIndex != nil && stopIdToIndex != csv.headerMap
+//@   loop 1 invariant forall k string :: has(stopIdToIndex, k) ==> 0 <= stopIdToIndex[k] && stopIdToIndex[k] < len(stops)
+//@   loop 1 decreases remaining(csv.csvReader)
+//@   loop 2 invariant len(parentStopIds) == len(stops)
+//@   loop 2 invariant forall k string :: has(stopIdToIndex, k) ==> 0 <= stopIdToIndex[k] && stopIdToIndex[k] < len(stops)
+//@   loop 3 bounded parent-forest
+
+//@ func parseTransfers
+//@   props C01 C03 C05 C08 C09 C10
+//@   requires csvOK(csv)
+//@   loop 1 invariant stopIdToStop != nil && (forall k string :: has(stopIdToStop, k) ==> stopIdToStop[k] != nil)
+//@   loop 2 invariant csvOK(csv)
+//@   loop 2 decreases remaining(csv.csvReader)
+
+//@ func parseCalendar
+//@   props C01 C05 C09 C11
+//@   requires csvOK(f) && m != nil
+//@   loop 1 invariant csvOK(f) && len(f.missingRequiredColumns) >= pre(len(f.missingRequiredColumns))
+//@   loop 1 invariant forall j int :: 0 <= j && j < $i ==> dayColumns[j].f == f && ((0 <= dayColumns[j].i && dayColumns[j].i < len(f.headerContent)) || len(f.missingRequiredColumns) > 0)
+//@   loop 2 invariant csvOK(f)
+//@   loop 2 decreases remaining(f.csvReader)
+
+//@ func parseCalendarDates
+//@   props C01 C05 C08 C09 C11
+//@   requires csvOK(csv) && m != nil
+//@   loop 1 invariant csvOK(csv)
+//@   loop 1 decreases remaining(csv.csvReader)
+
+//@ func parseScheduledTrips
+//@   props C01 C03 C05 C08 C09 C10
+//@   requires csvOK(csv)
+//@   loop 3 invariant csvOK(csv)
+//@   loop 3 decreases remaining(csv.csvReader)
+
+//@ func parseScheduledStopTimes
+//@   props C01 C03 C05 C08 C09 C10
+//@   requires csvOK(csv)
+//@   loop 2 invariant idToTrip != nil && (forall k string :: has(idToTrip, k) ==> idToTrip[k] != nil)
+//@   loop 3 invariant csvOK(csv)
+//@   loop 3 decreases remaining(csv.csvReader)
+
+//@ func parseShapes
+//@   props C01 C05 C08 C09
+//@   requires csvOK(csv)
+//@   loop 1 invariant csvOK(csv)
+//@   loop 1 decreases remaining(csv.csvReader)
+
+//@ func parseFrequencies
+//@   props C01 C05 C08 C09 C10
+//@   requires csvOK(csv)
+//@   loop 1 invariant csvOK(csv)
+//@   loop 1 decreases remaining(csv.csvReader)
